@@ -31,9 +31,11 @@ const (
 	SdOdd                      // decodable but unusual: hlen 200 (v4) / unknown message type (v6)
 	SdFull                     // as validA, padded to exactly the 4096 bytes the servers read at a time
 	SdBig                      // as validA, 1500 bytes
+	SdBare                     // decodable but without the usual content: v6 a relay-forward header carrying no relay-message option
+	// (only an interface-id), alternately nested in another relay; v4 a BOOTP packet without a message-type option
 )
 
-var sdNames = [...]string{"validA", "validB", "garbage", "empty", "noip", "zeroip", "odd", "full4096", "big1500"}
+var sdNames = [...]string{"validA", "validB", "garbage", "empty", "noip", "zeroip", "odd", "full4096", "big1500", "bare"}
 
 type ServerScenario struct {
 	Name     string
@@ -111,7 +113,7 @@ func srvDatagram(v6 bool, k SrvDgKind, serial int) ([]byte, net.Addr) {
 			from = &net.UDPAddr{IP: net.ParseIP("2001:db8::8"), Port: 1546}
 		}
 	}
-	tag := []byte{byte(serial)}
+	tag := []byte{byte(serial >> 8), byte(serial)}
 	if !v6 {
 		p, _ := dhcpv4.New(dhcpv4.WithTransactionID(dhcpv4.TransactionID{1, 2, 3, byte(serial)}), dhcpv4.WithHwAddr(clientMAC),
 			dhcpv4.WithMessageType(dhcpv4.MessageTypeDiscover), dhcpv4.WithGeneric(dhcpv4.GenericOptionCode(serialOpt4), tag))
@@ -126,6 +128,9 @@ func srvDatagram(v6 bool, k SrvDgKind, serial int) ([]byte, net.Addr) {
 			p.UpdateOption(dhcpv4.OptDomainSearch(&rfc1035label.Labels{Labels: []string{tagS + ".example.org"}}))
 			p.UpdateOption(dhcpv4.OptGeneric(dhcpv4.GenericOptionCode(231), bytes.Repeat([]byte(tagS), 50))) // 350 bytes: travels as two instances
 		}
+		if k == SdBare {
+			p.Options.Del(dhcpv4.OptionDHCPMessageType)
+		}
 		if k == SdFull || k == SdBig {
 			want := map[SrvDgKind]int{SdFull: 4096, SdBig: 1500}[k]
 			for f := 0; f <= want && len(p.ToBytes()) < want; f++ {
@@ -137,6 +142,17 @@ func srvDatagram(v6 bool, k SrvDgKind, serial int) ([]byte, net.Addr) {
 			b[2] = 200 // hardware address length beyond the 16-byte field
 		}
 		return b, from
+	}
+	if k == SdBare {
+		r := &dhcpv6.RelayMessage{MessageType: dhcpv6.MessageTypeRelayForward, HopCount: 1, LinkAddr: net.ParseIP("2001:db8::1"), PeerAddr: net.ParseIP(fmt.Sprintf("fe80::%x", serial+1))}
+		r.AddOption(dhcpv6.OptInterfaceID([]byte{byte(serial)}))
+		r.AddOption(&dhcpv6.OptionGeneric{OptionCode: dhcpv6.OptionCode(serialOpt6), OptionData: tag})
+		if serial%2 == 1 {
+			outer := &dhcpv6.RelayMessage{MessageType: dhcpv6.MessageTypeRelayForward, HopCount: 2, LinkAddr: net.ParseIP("2001:db8::2"), PeerAddr: net.ParseIP("fe80::99")}
+			outer.AddOption(dhcpv6.OptRelayMessage(r))
+			return outer.ToBytes(), from
+		}
+		return r.ToBytes(), from
 	}
 	m := &dhcpv6.Message{MessageType: dhcpv6.MessageTypeSolicit, TransactionID: dhcpv6.TransactionID{9, 8, byte(serial)}}
 	m.AddOption(dhcpv6.OptClientID(&dhcpv6.DUIDLL{HWType: 1, LinkLayerAddr: clientMAC}))
@@ -176,22 +192,30 @@ func srvDatagram(v6 bool, k SrvDgKind, serial int) ([]byte, net.Addr) {
 
 func serialOf4(m *dhcpv4.DHCPv4) int {
 	v := m.Options.Get(dhcpv4.GenericOptionCode(serialOpt4))
-	if len(v) != 1 {
+	if len(v) != 2 {
 		return -1
 	}
-	return int(v[0])
+	return int(v[0])<<8 | int(v[1])
 }
 
 func serialOf6(d dhcpv6.DHCPv6) int {
 	m, err := d.GetInnerMessage()
 	if err != nil || m == nil {
+		// a relay chain without an innermost message: the tag sits on the innermost relay header
+		for r, ok := d.(*dhcpv6.RelayMessage); ok && r != nil; {
+			if o := r.GetOneOption(dhcpv6.OptionCode(serialOpt6)); o != nil && len(o.ToBytes()) == 2 {
+				return int(o.ToBytes()[0])<<8 | int(o.ToBytes()[1])
+			}
+			in := r.Options.RelayMessage()
+			r, ok = in.(*dhcpv6.RelayMessage)
+		}
 		return -1
 	}
 	o := m.GetOneOption(dhcpv6.OptionCode(serialOpt6))
-	if o == nil || len(o.ToBytes()) != 1 {
+	if o == nil || len(o.ToBytes()) != 2 {
 		return -1
 	}
-	return int(o.ToBytes()[0])
+	return int(o.ToBytes()[0])<<8 | int(o.ToBytes()[1])
 }
 
 func (s *ServerScenario) body(out **srvRun) func() {
@@ -577,13 +601,20 @@ func c14Scenarios(tier string) []Scenario {
 			}
 		}
 		// datagram sizes: a datagram that exactly fills the servers' 4096-byte read is still a datagram
-		for _, seq := range [][]SrvDgKind{{SdFull}, {SdBig}, {SdFull, SdValidA}, {SdValidB, SdFull}, {SdBig, SdFull, SdBig}} {
+		for _, seq := range [][]SrvDgKind{{SdFull}, {SdBig}, {SdFull, SdValidA}, {SdValidB, SdFull}, {SdBig, SdFull, SdBig},
+			{SdBare}, {SdBare, SdBare}, {SdValidA, SdBare, SdValidB}, {SdBare, SdGarbage, SdBare}} {
 			for h := 0; h < 3; h++ {
 				add(&ServerScenario{V6: v6, Dgs: seq, EndErrAt: len(seq), CloseAt: -1, Handler: h, Bound: 1}, "datagram-sizes")
 			}
 		}
 		// deterministic long sequences under the default schedule
-		for _, n := range []int{50, 200} {
+		// (more datagrams than any plausible cap on handlers in flight: handler 3 keeps every handler alive until the
+		// whole script has been read)
+		longs := []int{50, 200, 300}
+		if thorough {
+			longs = append(longs, 1100)
+		}
+		for _, n := range longs {
 			var seq []SrvDgKind
 			for i := 0; i < n; i++ {
 				seq = append(seq, kinds[(i*7+i/6)%len(kinds)])
